@@ -1026,3 +1026,22 @@ fault("c18-global-keyword-sticks", "C18", "R18g",
       (TALPY, "\t\tcommandArgs = []\n\t\t# We only want to match semi-colons that are not escaped\n", "\t\tcommandArgs = []\n\t\tisLocal = 1\n\t\t# We only want to match semi-colons that are not escaped\n"))
 twin("c17-twin-define-scope-named", "C17",
      (TALPY, "\t\t\tstmtBits = defineStmt.split (' ')\n\t\t\tisLocal = 1\n", "\t\t\tstmtBits = defineStmt.split (' ')\n\t\t\tLOCAL = 1\n\t\t\tisLocal = LOCAL\n"))
+
+# ======================================================================= round i (R03k, R06l, R07o, R17k tab, R20f)
+SCRIPTEXEC = "pygopherd/handlers/scriptexec.py"
+fault("c03-parsed-date-ordered-unguarded", "C03", "R03k",
+      (HTTP, "            handler.prepare()\n            self.wfile.write(b\"HTTP/1.0 200 OK\\r\\n\")\n",
+       "            handler.prepare()\n            since = email.utils.parsedate_to_datetime(self.httpheaders.get(\"if-modified-since\", \"Thu, 01 Jan 1970 00:00:00 GMT\"))\n"
+       "            if datetime.datetime.fromtimestamp(0, datetime.timezone.utc) > since:\n                pass\n            self.wfile.write(b\"HTTP/1.0 200 OK\\r\\n\")\n"),
+      (HTTP, "import html\n", "import datetime\nimport email.utils\nimport html\n"))
+fault("c06-script-output-in-text-mode", "C06", "R06l",
+      (SCRIPTEXEC, "subprocess.run(args, env=newenv, capture_output=True)", "subprocess.run(args, env=newenv, capture_output=True, text=True)"))
+twin("c06-twin-script-output-explicit-bytes", "C06",
+     (SCRIPTEXEC, "subprocess.run(args, env=newenv, capture_output=True)", "subprocess.run(args, env=newenv, capture_output=True, text=False)"))
+fault("c07-link-files-decoded-with-replace", "C07", "R07o",
+      (UMN, 'with self.vfs.open(filename, "r", errors="surrogateescape") as fd:', 'with self.vfs.open(filename, "r", errors="replace") as fd:'))
+fault("c17-dollar-name-ends-at-any-blank", "C17", "R17k",
+      (TALES, "\t\t\t\t\t\t\tendPos = expr.find (' ', position + 1)\n\t\t\t\t\t\t\tif (endPos == -1):\n\t\t\t\t\t\t\t\tendPos = len (expr)\n",
+       "\t\t\t\t\t\t\tendPos = min ([p for p in (expr.find (c, position + 1) for c in ' \\t\\n') if p != -1] or [len (expr)])\n"))
+fault("c20-context-manager-swallows", "C20", "R20f",
+      (PBASE, "class BaseGopherProtocol:\n", "class _Quiet:\n    def __enter__(self):\n        return self\n\n    def __exit__(self, *exc):\n        return len(exc)\n\n\nclass BaseGopherProtocol:\n"))
